@@ -70,11 +70,13 @@ func c07Cases() []c07Params {
 		add("failed", "", "")
 		return out
 	}
-	for _, s := range schemes {
-		add("same", "", s)
-		add("addremove", "", s)
-		for _, v := range variants {
-			add("failed", v, s)
+	for rep := 0; rep < 2; rep++ {
+		for _, s := range schemes {
+			add("same", "", s)
+			add("addremove", "", s)
+			for _, v := range variants {
+				add("failed", v, s)
+			}
 		}
 	}
 	return out
